@@ -537,6 +537,17 @@ fn leaf_repair(b: &Built, a: &Value, adversarial: bool) -> (bool, Vec<u64>, Stri
         }
         vals.insert(k.clone(), getv(k));
     }
+    // optional: the model's DEVIATION of a hash-derived public value from the (uninterpreted) hash of the circuit's own
+    // inputs, transplanted onto the real hash: value := real_hash + delta (limb-wise, mod p)
+    let delta = |n: &str| -> Option<Vec<F>> {
+        a.get("deltas").and_then(|d| d.get(n)).and_then(|v| v.as_array()).map(|v| v.iter().map(|x| F::from_noncanonical_u64(x.as_u64().unwrap())).collect())
+    };
+    let plus = |hv: Vec<F>, d: &Option<Vec<F>>| -> Vec<F> {
+        match d {
+            Some(d) => hv.iter().zip(d.iter()).map(|(x, y)| *x + *y).collect(),
+            None => hv,
+        }
+    };
     let secret = getv("null_secret");
     if flag("secret_shared") {
         vals.insert("ua_secret".into(), secret.clone());
@@ -548,11 +559,12 @@ fn leaf_repair(b: &Built, a: &Value, adversarial: bool) -> (bool, Vec<u64>, Stri
         vals.insert("to_account".into(), acct.clone());
         vals.insert("ua_account".into(), acct);
     }
-    if flag("nullifier") {
+    let dn = delta("nullifier");
+    if flag("nullifier") || dn.is_some() {
         let mut pre = constv("salt_nullifier");
         pre.extend(&secret);
         pre.extend(&vals["null_tc"]);
-        vals.insert("nullifier".into(), h(&h(&pre)));
+        vals.insert("nullifier".into(), plus(h(&h(&pre)), &dn));
     }
     let cut16: Vec<usize> = a
         .get("cut16")
@@ -600,6 +612,14 @@ fn leaf_repair(b: &Built, a: &Value, adversarial: bool) -> (bool, Vec<u64>, Stri
         pre.extend(&vals["zk_tree_root"]);
         pre.extend(&vals["digest"]);
         vals.insert("block_hash".into(), h(&pre));
+    } else if let Some(db) = delta("block_hash") {
+        let mut pre = vals["parent_hash"].clone();
+        pre.extend(&vals["block_number"]);
+        pre.extend(&vals["state_root"]);
+        pre.extend(&vals["extrinsics_root"]);
+        pre.extend(&vals["zk_tree_root"]);
+        pre.extend(&vals["digest"]);
+        vals.insert("block_hash".into(), plus(h(&pre), &Some(db)));
     }
     let mut preset = to_preset(&vals, &[]);
     if adversarial {
